@@ -114,7 +114,9 @@ def run(chk, tier):
         if rv.get("k") == "binop" and rv["op"].startswith("Add") and rv.get("aty") == "usize" and lib.op_const_int(rv["b"]) == 1 and i in vm.dom:
             adv = i
     sites = [(i, t) for (i, t, p) in qq.call_sites(r"checked_jump_target$")]
-    okb = adv is not None and len(sites) >= 3
+    # (every jump arm goes through the bounds check: at least one call site inside the Jmp arm and inside the JmpCond arm)
+    in_arm = {arm_: [i_ for i_, _t in sites if i_ in vm.region(arm_)] for arm_ in ("Jmp", "JmpCond")}
+    okb = adv is not None and all(in_arm.values())
     for i, t in sites:
         e = mirq.expr_of(qq, t["args"][0])
         # pc after `pc += 1`: the phi that includes the incremented value, not the saved old pc
